@@ -151,6 +151,7 @@ def check(ctx, case):
     if case["mode"] == "moved":
         # warm whatever the curve may cache, then move it; everything below is about the moved curve
         v = case["mv"]
+        A = I.mk_jordan([[(p[0] - v[0], p[1] - v[1]) for p in sg] for sg in ja], num)     # starts elsewhere ...
         if case["warm"] == 0:
             A.intersection(B)
         elif case["warm"] == 1:
@@ -159,8 +160,7 @@ def check(ctx, case):
         else:
             A & B
             float(A)
-        A.move(v[0], v[1])
-        ja = [[(p[0] + v[0], p[1] + v[1]) for p in sg] for sg in ja]
+        A.move(v[0], v[1])                                                                  # ... and is moved into place
     truth = _exact_rows(ja, jb)
 
     def conv(rows):
